@@ -277,6 +277,9 @@ class Endpoint:
         return n
 
 
+BIG_FILE = 1 << 26
+
+
 class World:
     def __init__(self, cfg: dict[str, Any] | None = None):
         c = copy.deepcopy(DEFAULT_CFG)
@@ -377,7 +380,17 @@ class World:
         with audit.allow():
             for p in sorted(self.sandbox.rglob("*")):
                 rel = p.relative_to(self.sandbox).as_posix()
-                out[rel] = "DIR" if p.is_dir() else p.read_bytes()
+                if p.is_dir():
+                    out[rel] = "DIR"
+                    continue
+                size = p.stat().st_size
+                if size > BIG_FILE:
+                    # a File Data PDU may name any offset (64 bit with the large file flag): the file is then
+                    # sparse and far larger than memory; it is summarised by its size and its first bytes
+                    with open(p, "rb") as f:
+                        out[rel] = ("BIG", size, f.read(4096))
+                else:
+                    out[rel] = p.read_bytes()
         return out
 
     def dest_bytes(self) -> bytes | None:
